@@ -281,14 +281,8 @@ func (fs *memFS) OpenFile(ctx context.Context, name string, flag int, perm os.Fi
 	var n *memFSNode
 	if dir == nil {
 		// We're opening the root.
-		if runtime.GOOS == "zos" {
-			if flag&os.O_WRONLY != 0 {
-				return nil, os.ErrPermission
-			}
-		} else {
-			if flag&(os.O_WRONLY|os.O_RDWR) != 0 {
-				return nil, os.ErrPermission
-			}
+		if openedForWriting(flag) {
+			return nil, os.ErrPermission
 		}
 		n, frag = &fs.root, "/"
 
@@ -312,7 +306,7 @@ func (fs *memFS) OpenFile(ctx context.Context, name string, flag int, perm os.Fi
 		if n == nil {
 			return nil, os.ErrNotExist
 		}
-		if flag&(os.O_WRONLY|os.O_RDWR) != 0 && flag&os.O_TRUNC != 0 {
+		if openedForWriting(flag) && flag&os.O_TRUNC != 0 {
 			n.mu.Lock()
 			n.data = nil
 			n.mu.Unlock()
@@ -327,7 +321,21 @@ func (fs *memFS) OpenFile(ctx context.Context, name string, flag int, perm os.Fi
 		n:                n,
 		nameSnapshot:     frag,
 		childrenSnapshot: children,
+		flag:             flag,
 	}, nil
+}
+
+// openedForWriting reports whether the OpenFile flag asks for write access.
+func openedForWriting(flag int) bool {
+	if runtime.GOOS == "zos" {
+		return flag&os.O_WRONLY != 0
+	}
+	return flag&(os.O_WRONLY|os.O_RDWR) != 0
+}
+
+// openedForReading reports whether the OpenFile flag asks for read access.
+func openedForReading(flag int) bool {
+	return flag&(os.O_RDONLY|os.O_WRONLY|os.O_RDWR) != os.O_WRONLY
 }
 
 func (fs *memFS) RemoveAll(ctx context.Context, name string) error {
@@ -493,6 +501,8 @@ type memFile struct {
 	n                *memFSNode
 	nameSnapshot     string
 	childrenSnapshot []os.FileInfo
+	// flag is the flag argument of the OpenFile call.
+	flag int
 	// pos is protected by n.mu.
 	pos int
 }
@@ -512,6 +522,9 @@ func (f *memFile) Read(p []byte) (int, error) {
 	defer f.n.mu.Unlock()
 	if f.n.mode.IsDir() {
 		return 0, os.ErrInvalid
+	}
+	if !openedForReading(f.flag) {
+		return 0, &os.PathError{Op: "read", Path: f.nameSnapshot, Err: os.ErrPermission}
 	}
 	if f.pos >= len(f.n.data) {
 		return 0, io.EOF
@@ -581,6 +594,9 @@ func (f *memFile) Write(p []byte) (int, error) {
 
 	if f.n.mode.IsDir() {
 		return 0, os.ErrInvalid
+	}
+	if !openedForWriting(f.flag) {
+		return 0, &os.PathError{Op: "write", Path: f.nameSnapshot, Err: os.ErrPermission}
 	}
 	if f.pos < len(f.n.data) {
 		n := copy(f.n.data[f.pos:], p)
